@@ -144,11 +144,15 @@ Definition power_index (n : nat) (d : N) : option nat :=
 
 Record gst := mkG { g_total : Q; g_old : N; g_sign : Q; g_rc : list Q }.
 
-Definition glynn_step (n : nat) (M : matrix) (st : option gst) (bin_index : nat) : option gst :=
+(* [nrm] is the normalisation applied to stored numbers: Qred in the model proper (it keeps the
+   extracted arithmetic small and does not change any value: Qred x == x); the proofs also run
+   the loop with the identity to reason about symbolic entries (proofs/PermP.v shows that the
+   choice is immaterial). *)
+Definition glynn_step_with (nrm : Q -> Q) (n : nat) (M : matrix) (st : option gst) (bin_index : nat) : option gst :=
   match st with
   | None => None
   | Some s =>
-    let total := Qred (g_total s + g_sign s * qprodl (g_rc s)) in
+    let total := nrm (g_total s + g_sign s * qprodl (g_rc s)) in
     let b := N.of_nat bin_index in
     let new_grey := N.lxor b (N.div2 b) in
     let grey_diff := N.lxor (g_old s) new_grey in
@@ -157,26 +161,29 @@ Definition glynn_step (n : nat) (M : matrix) (st : option gst) (bin_index : nat)
     | Some idx =>
       let direction := (2 * cmpN (g_old s) new_grey)%Z in
       let rc := if (direction =? 0)%Z then g_rc s
-                else zipw (fun r v => Qred (r + v * inject_Z direction)) (g_rc s) (rownth M idx) in
+                else zipw (fun r v => nrm (r + v * inject_Z direction)) (g_rc s) (rownth M idx) in
       Some (mkG total new_grey (- g_sign s) rc)
     end
   end.
 
 (* column sums: np.sum(M, axis=0) *)
-Definition col_sums (m : nat) (M : matrix) : list Q := map (fun j => Qred (qsuml (col j M))) (seq 0 m).
+Definition col_sums_with (nrm : Q -> Q) (m : nat) (M : matrix) : list Q :=
+  map (fun j => nrm (qsuml (col j M))) (seq 0 m).
 
-Definition fast_glynn_perm (M : matrix) : option Q :=
+Definition fast_glynn_perm_with (nrm : Q -> Q) (M : matrix) : option Q :=
   let n := length M in
   match n with
   | O => None                   (* 2 ** (n - 1) = 0.5: range() raises TypeError *)
   | S n1 =>
     let num_loops := Nat.pow 2 n1 in
-    let st0 := mkG 0 0%N 1 (col_sums (ncols M) M) in
-    match fold_left (glynn_step n M) (seq 1 num_loops) (Some st0) with
+    let st0 := mkG 0 0%N 1 (col_sums_with nrm (ncols M) M) in
+    match fold_left (glynn_step_with nrm n M) (seq 1 num_loops) (Some st0) with
     | None => None
-    | Some s => Some (Qred (g_total s / inject_Z (Z.of_nat num_loops)))
+    | Some s => Some (nrm (g_total s / inject_Z (Z.of_nat num_loops)))
     end
   end.
+
+Definition fast_glynn_perm (M : matrix) : option Q := fast_glynn_perm_with Qred M.
 
 (* ------------------------------------------------------------------ permanent_prob *)
 
@@ -322,13 +329,10 @@ Definition block_step (sorted : matrix) (acc : option matrix) (blk : nat * nat *
     else Some (set_block out start stop cols (random_prob subarr))
   end.
 
-(* inf_retis with the two argsort answers supplied from outside *)
-Definition inf_retis_with (minus_idx pos_idx0 : list nat) (off_ : nat) (input_mat : matrix)
-           (locks : list bool) : option matrix :=
-  let offset := (off_ - count_true (firstn off_ locks))%nat in
-  let insert_list := insert_list_from 0 locks in
-  let free := map negb locks in
-  let non_locked := map (keep free) (keep free input_mat) in
+(* inf_retis after the locked rows / columns have been dropped and before they are re-inserted:
+   sort, equal test, fast or block-wise path, un-sort, the two np.allclose assertions.
+   The two argsort answers are supplied from outside. *)
+Definition inf_core (minus_idx pos_idx0 : list nat) (offset : nat) (non_locked : matrix) : option matrix :=
   let m := length non_locked in
   if (m =? 0)%nat then None                        (* argmax of an empty sequence *)
   else
@@ -354,11 +358,23 @@ Definition inf_retis_with (minus_idx pos_idx0 : list nat) (off_ : nat) (input_ma
     | Some o =>
       let o := unsort sort_idx o in
       if forallb close1 (map qsuml o) && forallb close1 (map (fun j => qsuml (col j o)) (seq 0 m))
-      then
-        let rows := np_insert o insert_list (repeat 0 m) in
-        Some (map (fun r => np_insert r insert_list 0) rows)
+      then Some o
       else None                                      (* AssertionError *)
     end.
+
+(* inf_retis with the two argsort answers supplied from outside *)
+Definition inf_retis_with (minus_idx pos_idx0 : list nat) (off_ : nat) (input_mat : matrix)
+           (locks : list bool) : option matrix :=
+  let offset := (off_ - count_true (firstn off_ locks))%nat in
+  let insert_list := insert_list_from 0 locks in
+  let free := map negb locks in
+  let non_locked := map (keep free) (keep free input_mat) in
+  match inf_core minus_idx pos_idx0 offset non_locked with
+  | None => None
+  | Some o =>
+    let rows := np_insert o insert_list (repeat 0 (length non_locked)) in
+    Some (map (fun r => np_insert r insert_list 0) rows)
+  end.
 
 Definition minus_keys (off_ : nat) (input_mat : matrix) (locks : list bool) : list Z :=
   let offset := (off_ - count_true (firstn off_ locks))%nat in
